@@ -165,7 +165,14 @@ func C12(rep *ev.Reporter, tier string) {
 	addProg("methods", []*grl.Rule{grl.R("m", nil, `F.S.ToUpper() == "S" && F.Add(F.I, 1) == 11`, `F.S = F.Cat("a", "b")`, "F.I = F.Pick(1, 4, 6)")})
 	addProg("floats", []*grl.Rule{grl.R("f1", nil, "F.F > 0.0000001 && F.I2 == 0", "F.I2 = 1"), grl.R("f2", nil, "F.F > 0.0000002 && F.I2 == 1", "F.I2 = 2"), grl.R("f3", grl.Sal(9), "F.F < -1.5e-3", "F.I2 = 9")})
 	addProg("forget", []*grl.Rule{grl.R("bump", nil, "F.I < 12", "F.Bump()", `Forget("F.I")`, `Forget("F.Bump()")`)})
+	addProg("forget-call", []*grl.Rule{grl.R("g", nil, "F.GetI() < 13", "F.I = F.I + 1", `Forget("F.GetI()")`), grl.R("h", nil, "(F.GetI() >= 13) && F.K < 1", "F.K = 1", `Changed("F.GetI()")`)})
+	addProg("changed-call", []*grl.Rule{grl.R("g", nil, "F.Add(F.GetI(), 0) < 13 && !(F.GetI() > 20)", "F.I = F.I + 1", `Changed("F.GetI()")`)})
 	addProg("strings", []*grl.Rule{grl.R("q", nil, `F.S != "a\"b" && F.S != 'c"d' && F.S + "é漢" != ""`, `F.S = "tab\there\n"`, `Retract("q")`)})
+	kbs = append(kbs, c12KB{name: "metadata-extremes", text: `rule Lowest "min" salience -2147483648 { when F.I2 == 0 then F.I2 = 1; }
+rule Highest 'single "quoted" desc' salience 2147483647 { when F.I2 == 1 then F.I2 = 2; }
+rule Ünïcode_名前 "tab\there \"q\" é漢😀" salience 0x10 { when F.I2 == 2 then F.I2 = 3; F.S = "é漢😀\x00end"; }
+rule NoDescNoSal { when F.I2 == 3 then Complete(); }
+rule OctalSal salience -017 { when F.I2 > 99 then F.I2 = 0; }`})
 	if tier == "thorough" {
 		n := 0
 		general2("quick", 6, func(c Case) {
